@@ -14,6 +14,8 @@ import sfc_models.gl_book.chapter3 as ch3
 import sfc_models.gl_book.chapter4 as ch4
 import sfc_models.gl_book.chapter6 as ch6
 
+# renamings applied to the ambiguous topologies only (the alphabetical order of the two capitalist sectors flips)
+AMBIG_RENAMINGS = {'R5-flip-capitalists': {'CAP': 'ZCAP', 'RENT': 'ARENT'}, 'R6-capitalists-household': {'CAP': 'OWNER', 'RENT': 'LANDLORD', 'HH': 'FOLK'}}
 RENAMINGS = {
     'R1-all-but-goods': {'CA': 'ZZ', 'GOV': 'STATE', 'TRE': 'FINMIN', 'CB': 'BANK', 'HH': 'FOLK', 'CAP': 'RICH', 'BUS': 'FIRM', 'TF': 'LEVY', 'LAB': 'WORK'},
     'R2-labour-household': {'HH': 'PPL', 'LAB': 'JOBS'},
@@ -45,12 +47,23 @@ def singles():
 
 def work_rename(item):
     plan, rname = item
-    rename = RENAMINGS[rname]
+    rename = RENAMINGS[rname] if rname in RENAMINGS else AMBIG_RENAMINGS[rname]
     rec = {'plan': plan.name, 'case': 'rename:' + rname, 'obs': [], 'solver_s': 0.0, 'queries': 0, 'rename': rename}
     c0 = Z.build(plan)
     e0 = emit(c0)
     if not e0.text:
-        rec['build_error'] = repr(e0.err)
+        if 'ambiguous' not in plan.features:
+            rec['build_error'] = repr(e0.err)
+            return rec
+        # an ambiguous topology is refused: then it is refused alike under every renaming (a renamed build that goes through has picked a reading by name)
+        try:
+            e1 = emit(Z.build(plan, rename=rename))
+            err1 = None if e1.text else e1.err
+        except Exception as ex:
+            err1 = ex
+        same = err1 is not None and type(err1) is type(e0.err)
+        rec['obs'].append({'kind': 'builds', 'what': 'refused under the original names (%s): refused alike under the renaming' % type(e0.err).__name__,
+                           'verdict': 'unsat' if same else 'sat', 'structural': None if same else {'error': 'renamed build gives %r, original %r' % (err1, e0.err)}})
         return rec
     try:
         c1 = Z.build(plan, rename=rename)
@@ -302,7 +315,7 @@ def run(tier, seed):
                sfc_models.models.Model._GenerateFullSectorCodes, sfc_models.models.Model._FitIntoCurrencyZone,
                sfc_models.sector.Market._GenerateTermsLowLevel, sfc_models.gl_book.GL_book_model.__init__,
                ch3.SIM.build_model, ch3.SIMEX1.build_model, ch4.PC.build_model, ch6.REG.build_model)
-    items = [(p, r) for p in singles() for r in sorted(RENAMINGS)]
+    items = [(p, r) for p in singles() for r in sorted(RENAMINGS)] + [(p, r) for p in Z.ambiguous() for r in sorted(AMBIG_RENAMINGS) + ['R1-all-but-goods']]
     ecases = embed_cases(tier)
     bcases = [(('SIM', 'SIMEX1'), False), (('SIM', 'PC'), False), (('PC', 'PC'), False), (('SIM', 'SIM', 'SIMEX1'), False),
               (('SIM', 'SIMEX1'), True), (('PC', 'SIM'), True), (('REG', 'SIM'), False), (('PC', 'REG'), True), (('SIMEX1', 'PC', 'PC'), True)]
